@@ -461,3 +461,9 @@ INV = "simultaneous/_invariants.py"
 M("C20", "setstate-defaults-win", INV, "            setattr(self, k, state[k])\n        self._populate_derived_attributes()", "            setattr(self, k, state[k])\n        self.tolerance = (self.tolerance or {}) | _tolerance._DEFAULT_TOLERANCE\n        self._populate_derived_attributes()", "C20-R3")
 T("C20", "twin-setstate-restored-wins", INV, "            setattr(self, k, state[k])\n        self._populate_derived_attributes()", "            setattr(self, k, state[k])\n        self.tolerance = _tolerance._DEFAULT_TOLERANCE | (self.tolerance or {})\n        self._populate_derived_attributes()")
 M("C20", "zero-array-ignores-variant", "simultaneous/main.py", "        if variant is None:\n            variant = self._variants[0]\n        return variant.create_zero_array(qid_to_logly, **kwargs, )", "        return self._variants[0].create_zero_array(qid_to_logly, **kwargs, )", "C20-R5")
+GET = "simultaneous/_get.py"
+M("C20", "std-qids-generator", GET, "        return tuple(_quantities.generate_qids_by_kind(self._invariant.quantities, kind, ))\n\n    @_cast_as_output_type\n    @_unpack_singleton_in_dict\n    def get_parameters_stds(", "        return _quantities.generate_qids_by_kind(self._invariant.quantities, kind, )\n\n    @_cast_as_output_type\n    @_unpack_singleton_in_dict\n    def get_parameters_stds(", "C20-R6")
+M("C20", "std-names-generator", GET, "        std_qids = tuple(_quantities.generate_qids_by_kind(self._invariant.quantities, _quantities.QuantityKind.ANY_STD, ))\n        for v in self._variants:", "        std_qids = _quantities.generate_qids_by_kind(self._invariant.quantities, _quantities.QuantityKind.ANY_STD, )\n        for v in self._variants:", "C20-R6")
+T("C20", "twin-std-names-list", GET, "        std_qids = tuple(_quantities.generate_qids_by_kind(self._invariant.quantities, _quantities.QuantityKind.ANY_STD, ))\n        for v in self._variants:", "        std_qids = list(_quantities.generate_qids_by_kind(self._invariant.quantities, _quantities.QuantityKind.ANY_STD, ))\n        for v in self._variants:")
+M("C20", "portable-pairs-not-retupled", "simultaneous/main.py", "            self_v.assign_strict({ n: tuple(v) for n, v in portable_v.items() }, )", "            self_v.assign_strict(portable_v, )", "C20-R4")
+M("C20", "change-logly-no-rebuild", "simultaneous/main.py", "        self._invariant._populate_derived_attributes()\n", "", "C20-R7")
